@@ -337,8 +337,10 @@ enum EdgeKind {
     Scalar,
     InputType,
     InputField,
-    /// through an input object nested `depth` levels below the argument's type (the real check is KNOWN
-    /// not to look there: open finding `directive-recursion@through-nested-input-field`)
+    /// through an input object nested `depth` levels below the argument's type (since fix 2e4a65e
+    /// `directives_in_type` follows the types of input fields transitively, one `seen_types` set per argument;
+    /// before it the real check did not look there — former open finding
+    /// `directive-recursion@through-nested-input-field`, now an ordinary soundness case)
     Nested(usize),
 }
 
@@ -435,7 +437,8 @@ fn directive_gadget(rng: &mut Rng, faulty: bool) -> Gadget {
             features.push("directive-graph:lasso".into());
         }
         class = if weak {
-            "through-nested-input-field".to_string()
+            // the ring can only be closed through a nested input object
+            format!("cycle:only-through-nested-input-object{}", if ring_ext { "-in-extension" } else { "" })
         } else {
             let all_arg = ring_kinds.iter().all(|k| *k == EdgeKind::ArgDir);
             let none_arg = ring_kinds.iter().all(|k| *k != EdgeKind::ArgDir);
@@ -493,6 +496,25 @@ fn directive_gadget(rng: &mut Rng, faulty: bool) -> Gadget {
                     d.inputs.push(iv("v", int()));
                     if lvl < depth {
                         d.inputs.push(iv("n", wrap_in(rng, Ty::named(&format!("{tname}n{}", lvl + 1)))));
+                        if rng.chance(1, 3) {
+                            // the next level is referenced by two fields (one `seen_types` set per walk: visited once)
+                            d.inputs.push(iv("m", wrap_in(rng, Ty::named(&format!("{tname}n{}", lvl + 1)))));
+                            features.push("directive-graph:nested-parallel-field".into());
+                        }
+                        if lvl == 0 && rng.chance(1, 4) {
+                            // a second way down to the deepest object, through a side object (diamond of input objects);
+                            // placed before or after the direct way
+                            let side = format!("{tname}s");
+                            let mut sd = tdef(TypeKind::Input, &side);
+                            sd.inputs.push(iv("n", wrap_in(rng, Ty::named(&format!("{tname}n{depth}")))));
+                            if rng.coin() {
+                                sd.inputs.push(iv("up", Ty::named(&tname)));
+                            }
+                            items.push(TsItem::TypeDef(sd));
+                            let f = iv("s", wrap_in(rng, Ty::named(&side)));
+                            if rng.coin() { d.inputs.insert(0, f) } else { d.inputs.push(f) }
+                            features.push("directive-graph:nested-diamond".into());
+                        }
                     } else {
                         if e.kind == EdgeKind::InputType {
                             if e.in_ext { x.dirs.push(app.clone()) } else { d.dirs.push(app.clone()) }
@@ -513,6 +535,12 @@ fn directive_gadget(rng: &mut Rng, faulty: bool) -> Gadget {
                     }
                 }
                 args[e.from].push(iv(&aname, wrap_in(rng, Ty::named(&tname))));
+                if rng.chance(1, 5) {
+                    // a second argument of the same type: `seen_types` is fresh for each argument, so the directives
+                    // inside the type are collected once per argument
+                    args[e.from].push(iv(&format!("{aname}b"), wrap_in(rng, Ty::named(&tname))));
+                    features.push("directive-graph:two-arguments-of-one-input-type".into());
+                }
             }
         }
     }
